@@ -13,7 +13,9 @@ MANIFEST = {
             "arguments = markers of WHERE/ORDER BY/LIMIT in order) over the node-kind table REGENERATED from traversalArgs by a go/ast "
             "translator. Tie: the REAL proxy runs generated DML inside global transactions over fakedb; decoded undo-log images, the "
             "arguments of the before-image query and the table dumps around each statement are compared with the model inside Coq "
-            "(vm_compute) and with the row diff directly (oracle).",
+            "(vm_compute) and with the row diff directly (oracle); explicit transactions with a statement refused after its image query "
+            "(per-statement diffs read inside the transaction), auto_increment_increment varied per scenario and between statements, the "
+            "table-meta cache's real refresh after a dropped table.",
     "note": "Trusted: Coq kernel + vm_compute, no axioms; fakedb (evaluates the WHERE text: matched keys come from a bare SELECT with "
             "the statement's own WHERE), tcstub, atrun, tools/xlate traverse, this driver's canonicaliser. Types: integer, string, NULL.",
     "technique": "Coq proof (induction over key lists / syntax trees) over a translator-regenerated table + differential correspondence (vm_compute) + direct oracle",
@@ -76,14 +78,24 @@ def typed(c, kind):
     return c
 
 
-def analyze_stmt(case, sm):
-    """direct oracle + model case for one statement; returns dict(oracle=[...], icase=term|None, acase=term|None, info)"""
+def snapshot_rows(step, meta):
+    """rows of an in-transaction `SELECT * ... ORDER BY <pk>` (text protocol: everything arrives as bytes), typed by column kind"""
+    kinds = [c["kind"] for c in meta["cols"]]
+    return [[typed(U.canon_tv(v), kd) for v, kd in zip(row, kinds)] for row in step.get("rows") or []]
+
+
+def analyze_stmt(case, sm, ov=None):
+    """direct oracle + model case for one statement; returns dict(oracle=[...], icase=term|None, acase=term|None, info).
+    ov (explicit transactions): in-transaction snapshots around the statement and its item of the transaction's undo record"""
     meta, tr = case["meta"], case["trace"]
-    pk, table = meta["pk"], meta["table"]
+    pk, table = meta["pk"], sm.get("table") or meta["table"]
     names = [c["name"] for c in meta["cols"]]
     st = U.step_at(tr, sm["path"])
-    d0 = U.dump_table(U.step_at(tr, sm["dump_pre"]), table)
-    d1 = U.dump_table(U.step_at(tr, sm["dump_post"]), table)
+    if ov is not None:
+        d0, d1 = ov["d0"], ov["d1"]
+    else:
+        d0 = U.dump_table(U.step_at(tr, sm["dump_pre"]), table)
+        d1 = U.dump_table(U.step_at(tr, sm["dump_post"]), table)
     res = {"oracle": [], "icase": None, "acase": None, "class": st["class"], "kind": sm["kind"], "pred": sm.get("pred") or "",
            "matched": 0, "changed": 0}
     if d0 is None or d1 is None:
@@ -114,6 +126,8 @@ def analyze_stmt(case, sm):
         for u in s.get("undo") or []:
             prev.add(u["branch_id"])
     new = [u for u in st.get("undo") or [] if u["branch_id"] not in prev]
+    if ov is not None:
+        new = [{"branch_id": -1, "items": ov["items"]}] if ov["items"] is not None else []
     if st["class"] == "panic":
         res["oracle"].append("the statement panicked instead of being recorded or rejected")
     if not ok:
@@ -192,11 +206,11 @@ def analyze_stmt(case, sm):
         krs = None   # what the database would have stored is not observable for a rejected insert
     if matched is not None and krs is not None and sm.get("expect") != "reject-db":
         res["icase"] = ("{| i_kind := %d; i_only_care := %s; i_ncols := %d; i_pk := %s; i_cols := %s; i_sets := %s;\n i_tb := %s;\n i_m := %s; i_krs := %s; "
-                        "i_listed := %s; i_last_id := (%d)%%Z; i_ok := %s;\n i_before := %s;\n i_after := %s;\n i_ta := %s |}") % (
+                        "i_listed := %s; i_last_id := (%d)%%Z; i_step := (%d)%%Z; i_ok := %s;\n i_before := %s;\n i_after := %s;\n i_ta := %s |}") % (
             kindn, coq_bool(meta["only_care"]), len(names), coq_list(map(str, pk)), coq_list(map(str, sm["cols"] or [])), coq_list(sets),
             U.coq_tbl([(list(k), r) for k, r in U.keyed(d0, pk)]),
             coq_list([U.coq_vals(list(k)) for k in (matched if sm["kind"] != "insert" else [])]), U.coq_tbl(krs),
-            listed, st.get("last_id", 0), coq_bool(ok), U.coq_tbl(obs_b), U.coq_tbl(obs_a),
+            listed, st.get("last_id", 0), sm.get("step") or 1, coq_bool(ok), U.coq_tbl(obs_b), U.coq_tbl(obs_a),
             U.coq_tbl([(list(k), r) for k, r in U.keyed(d1, pk)]))
     # ---- argument selection: the first locking SELECT the proxy issued for this statement
     if sm["kind"] in ("update", "delete") and sm.get("roots"):
@@ -209,6 +223,46 @@ def analyze_stmt(case, sm):
             res["acase"] = "{| a_roots := %s; a_args := %s; a_obs := Some %s |}" % (
                 U.coq_roots(sm["roots"]), U.coq_vals([U.canon_arg(a) for a in sm["args"] or []]), U.coq_vals(obs))
     return res
+
+
+def analyze_etx(case):
+    """one explicit local transaction (some statement refused by the database, the application goes on and commits):
+    the items of the transaction's undo record are, in order, the images of the statements that succeeded"""
+    meta, tr = case["meta"], case["trace"]
+    ex = meta["extra"]
+    cm = U.step_at(tr, ex["commit_path"])
+    before = {u["branch_id"] for u in (U.step_at(tr, ex["dump_pre"]).get("undo") or [])}
+    rows = [u for u in cm.get("undo") or [] if u["branch_id"] not in before]
+    items = [it for u in rows for it in u.get("items") or []]
+    # statements whose images have rows, against the items that have rows (an all-empty transaction writes no undo record,
+    # and items without rows carry nothing to compare), in order
+    def has_rows(it):
+        return bool(((it.get("before") or {}).get("rows") or []) or ((it.get("after") or {}).get("rows") or []))
+    items = [it for it in items if has_rows(it)]
+    pre, touched = [], []
+    for sm in meta["stmts"]:
+        st = U.step_at(tr, sm["path"])
+        d0 = snapshot_rows(U.step_at(tr, sm["snap_pre"]), meta)
+        d1 = snapshot_rows(U.step_at(tr, sm["snap_post"]), meta)
+        pre.append((st, d0, d1))
+        n_matched = len(U.step_at(tr, sm["match_path"]).get("rows") or []) if sm.get("match_path") else len(d1) - len(d0)
+        touched.append(st["class"] == "ok" and n_matched > 0)
+    out, head, n = [], [], 0
+    if cm["class"] == "ok" and len(items) != sum(touched):
+        head.append("the undo record of the transaction has %d statement images with rows for %d accepted statements that touched rows" % (len(items), sum(touched)))
+    for sm, (st, d0, d1), t in zip(meta["stmts"], pre, touched):
+        ov = {"d0": d0, "d1": d1, "items": None}
+        if st["class"] == "ok" and cm["class"] == "ok":
+            ov["items"] = []
+            if t:
+                ov["items"] = [items[n]] if n < len(items) else []
+                n += 1
+        r = analyze_stmt(case, sm, ov)
+        if head:
+            r["oracle"] = head + r["oracle"]
+            head = []
+        out.append(r)
+    return out
 
 
 def sizes(tier):
@@ -232,6 +286,10 @@ def run(chk, only=None):
     for ci, c in enumerate(cases):
         if c["trace"].get("setup_err"):
             raise vlib.Broken("scenario setup failed: " + c["trace"]["setup_err"])
+        if (c["meta"].get("extra") or {}).get("shape") == "etx":
+            for si, r in enumerate(analyze_etx(c)):
+                recs.append((ci, si, r))
+            continue
         for si, sm in enumerate(c["meta"]["stmts"]):
             recs.append((ci, si, analyze_stmt(c, sm)))
     # ---- direct oracle
